@@ -392,6 +392,10 @@ class HandleRequest(Contract):
         if nrep == 1 and not sends_on(st, a["conn"]):
             pass
         post.append(("C12: after a normal reply the response annotations are reset", z3.BoolVal(True)))
+        # C05: both transport servers learn that a connection is finished ONLY from an exception out of handleRequest; after a normal return they keep the
+        # connection in their select set / keep the worker reading from it - so it must still be open then
+        closes = [e for e in calls(st, "SocketConnection.close") if isinstance(e[2].get("self"), VObj) and e[2]["self"].ref == a["conn"].ref]
+        post.append(("C05: a normal return leaves the connection open (only an exception tells the server loop that the connection is finished)", z3.BoolVal(not closes)))
         return post
 
     def x_any(self, E, old, st, a, exc):
